@@ -1,8 +1,271 @@
-//! Live part of C13 (request ids over long request sequences).
-use crate::report::*;
-use serde_json::{json, Value};
+//! Live part of C13: request ids over long request sequences, on every kind of
+//! response the framework or a handler can produce.
 
-pub fn run(_ctx: &Ctx, _samples: &Samples) -> Value {
-    json!({"requests": 0, "distinct_request_ids": 0, "note": "live part not built yet"})
+use crate::live::*;
+use crate::report::*;
+use crate::slices::{versioned, VERSION_HEADER};
+use dropshot::{
+    ApiDescription, ApiEndpoint, ApiEndpointVersions, ClientErrorStatusCode, ErrorStatusCode, HttpError, HttpResponseError, HttpResponseOk,
+    Path, Query, RequestContext, TypedBody,
+};
+use schemars::JsonSchema;
+use serde::{Deserialize, Serialize};
+use serde_json::{json, Value};
+use std::collections::HashSet;
+use std::sync::atomic::{AtomicU64, Ordering};
+use std::sync::Mutex;
+use std::time::Duration;
+
+const MARK: &str = "INTERNAL-live-4be1-secret";
+const T: Duration = Duration::from_secs(10);
+
+#[derive(Serialize, JsonSchema)]
+struct RidBody {
+    handler_request_id: String,
 }
-pub fn replay(_ctx: &Ctx, _case: &Value) {}
+#[derive(Deserialize, JsonSchema)]
+struct CodePath {
+    code: u16,
+}
+#[derive(Deserialize, JsonSchema)]
+struct NPath {
+    #[allow(dead_code)]
+    n: u32,
+}
+#[derive(Deserialize, JsonSchema)]
+struct XQuery {
+    #[allow(dead_code)]
+    x: u32,
+}
+#[derive(Deserialize, JsonSchema)]
+struct ABody {
+    #[allow(dead_code)]
+    a: u32,
+}
+
+#[derive(Debug, Serialize, JsonSchema)]
+struct CustomErr {
+    custom_message: String,
+    handler_request_id: Option<String>,
+    #[serde(skip)]
+    status: u16,
+}
+impl std::fmt::Display for CustomErr {
+    fn fmt(&self, f: &mut std::fmt::Formatter<'_>) -> std::fmt::Result {
+        write!(f, "custom")
+    }
+}
+impl From<HttpError> for CustomErr {
+    fn from(e: HttpError) -> Self {
+        CustomErr { custom_message: e.external_message, handler_request_id: None, status: e.status_code.as_u16() }
+    }
+}
+impl HttpResponseError for CustomErr {
+    fn status_code(&self) -> ErrorStatusCode {
+        ErrorStatusCode::from_u16(self.status).unwrap_or(ErrorStatusCode::INTERNAL_SERVER_ERROR)
+    }
+}
+
+async fn ok_h(rq: RequestContext<()>) -> Result<HttpResponseOk<RidBody>, HttpError> {
+    Ok(HttpResponseOk(RidBody { handler_request_id: rq.request_id.clone() }))
+}
+async fn err_h(rq: RequestContext<()>, p: Path<CodePath>) -> Result<HttpResponseOk<RidBody>, HttpError> {
+    let code = p.into_inner().code;
+    let rid = rq.request_id.clone();
+    match code {
+        500 => Err(HttpError::for_internal_error(format!("{MARK} rid={rid}"))),
+        503 => Err(HttpError::for_unavail(Some("Unavail".into()), format!("{MARK} rid={rid}"))),
+        404 => Err(HttpError::for_not_found(None, format!("{MARK} rid={rid}"))),
+        c if (400..500).contains(&c) => Err(HttpError::for_client_error(Some("E".into()), ClientErrorStatusCode::from_u16(c).unwrap(), format!("rid={rid}"))),
+        c => Err(HttpError {
+            status_code: ErrorStatusCode::from_u16(c).unwrap_or(ErrorStatusCode::INTERNAL_SERVER_ERROR),
+            error_code: None,
+            external_message: format!("rid={rid}"),
+            internal_message: format!("{MARK} rid={rid}"),
+            headers: None,
+        }),
+    }
+}
+async fn custom_h(rq: RequestContext<()>, p: Path<CodePath>) -> Result<HttpResponseOk<RidBody>, CustomErr> {
+    Err(CustomErr { custom_message: "custom".into(), handler_request_id: Some(rq.request_id.clone()), status: p.into_inner().code })
+}
+async fn typed_h(rq: RequestContext<()>, _p: Path<NPath>) -> Result<HttpResponseOk<RidBody>, HttpError> {
+    Ok(HttpResponseOk(RidBody { handler_request_id: rq.request_id.clone() }))
+}
+async fn custom_typed_h(rq: RequestContext<()>, _p: Path<NPath>) -> Result<HttpResponseOk<RidBody>, CustomErr> {
+    Ok(HttpResponseOk(RidBody { handler_request_id: rq.request_id.clone() }))
+}
+async fn query_h(rq: RequestContext<()>, _q: Query<XQuery>) -> Result<HttpResponseOk<RidBody>, HttpError> {
+    Ok(HttpResponseOk(RidBody { handler_request_id: rq.request_id.clone() }))
+}
+async fn body_h(rq: RequestContext<()>, _b: TypedBody<ABody>) -> Result<HttpResponseOk<RidBody>, HttpError> {
+    Ok(HttpResponseOk(RidBody { handler_request_id: rq.request_id.clone() }))
+}
+
+fn api() -> ApiDescription<()> {
+    let mut api = ApiDescription::new();
+    let ct = "application/json";
+    let v = || ApiEndpointVersions::All;
+    api.register(ApiEndpoint::new("ok".into(), ok_h, http::Method::GET, ct, "/ok", v())).unwrap();
+    api.register(ApiEndpoint::new("err".into(), err_h, http::Method::GET, ct, "/err/{code}", v())).unwrap();
+    api.register(ApiEndpoint::new("custom".into(), custom_h, http::Method::GET, ct, "/custom/{code}", v())).unwrap();
+    api.register(ApiEndpoint::new("typed".into(), typed_h, http::Method::GET, ct, "/typed/{n}", v())).unwrap();
+    api.register(ApiEndpoint::new("ctyped".into(), custom_typed_h, http::Method::GET, ct, "/ctyped/{n}", v())).unwrap();
+    api.register(ApiEndpoint::new("query".into(), query_h, http::Method::GET, ct, "/q", v())).unwrap();
+    api.register(ApiEndpoint::new("body".into(), body_h, http::Method::PUT, ct, "/body", v())).unwrap();
+    api
+}
+
+struct Case {
+    name: &'static str,
+    req: Vec<u8>,
+    status: u16,
+    /// framework-format error body expected
+    framework_body: bool,
+    /// the body echoes the id the handler was given under this JSON key / message prefix
+    handler_id: HandlerId,
+}
+enum HandlerId {
+    None,
+    Field(&'static str),
+    MessageRid,
+}
+
+fn cases(i: u64) -> Vec<Case> {
+    // client-supplied x-request-id values repeat on purpose: they must not influence the server's ids
+    let client_rid = match i % 4 {
+        0 => "",
+        1 => "x-request-id: client-chosen-id\r\n",
+        2 => "x-request-id: 00000000-0000-0000-0000-000000000000\r\n",
+        _ => "X-Request-Id: client-chosen-id\r\nx-request-id: second-line\r\n",
+    };
+    let g = |p: &str| format!("GET {p} HTTP/1.1\r\nhost: h\r\n{client_rid}\r\n").into_bytes();
+    let code4 = 400 + (i % 100) as u16;
+    let code5 = 500 + (i % 100) as u16;
+    vec![
+        Case { name: "success", req: g("/ok"), status: 200, framework_body: false, handler_id: HandlerId::Field("handler_request_id") },
+        Case { name: "handler_client_error", req: g(&format!("/err/{code4}")), status: if code4 == 404 { 404 } else { code4 }, framework_body: true, handler_id: if code4 == 404 { HandlerId::None } else { HandlerId::MessageRid } },
+        Case { name: "handler_server_error", req: g(&format!("/err/{code5}")), status: code5, framework_body: true, handler_id: if code5 == 500 || code5 == 503 { HandlerId::None } else { HandlerId::MessageRid } },
+        Case { name: "handler_custom_error", req: g(&format!("/custom/{code4}")), status: code4, framework_body: false, handler_id: HandlerId::Field("handler_request_id") },
+        Case { name: "path_extractor_failure", req: g("/typed/notanumber"), status: 400, framework_body: true, handler_id: HandlerId::None },
+        Case { name: "path_extractor_failure_custom_error_type", req: g("/ctyped/notanumber"), status: 400, framework_body: false, handler_id: HandlerId::None },
+        Case { name: "query_extractor_failure", req: g("/q?x=abc"), status: 400, framework_body: true, handler_id: HandlerId::None },
+        Case { name: "query_ok", req: g("/q?x=7"), status: 200, framework_body: false, handler_id: HandlerId::Field("handler_request_id") },
+        Case { name: "body_extractor_failure", req: request("PUT", "/body", &format!("content-type: application/json\r\n{client_rid}"), b"{\"a\":"), status: 400, framework_body: true, handler_id: HandlerId::None },
+        Case { name: "body_oversize", req: request("PUT", "/body", &format!("content-type: application/json\r\n{client_rid}"), format!("{{\"a\":1{}}}", " ".repeat(2000)).as_bytes()), status: 400, framework_body: true, handler_id: HandlerId::None },
+        Case { name: "body_wrong_content_type", req: request("PUT", "/body", &format!("content-type: text/plain\r\n{client_rid}"), b"{\"a\":1}"), status: 400, framework_body: true, handler_id: HandlerId::None },
+        Case { name: "not_found", req: g("/nope"), status: 404, framework_body: true, handler_id: HandlerId::None },
+        Case { name: "method_not_allowed", req: request("POST", "/ok", client_rid, b""), status: 405, framework_body: true, handler_id: HandlerId::None },
+        Case { name: "bad_path", req: g("/typed/%ff"), status: 400, framework_body: true, handler_id: HandlerId::None },
+    ]
+}
+
+struct Shared {
+    ids: Mutex<HashSet<String>>,
+    requests: AtomicU64,
+    kinds: Mutex<std::collections::BTreeMap<String, u64>>,
+}
+
+fn check_response(ctx: &Ctx, sh: &Shared, c: &Case, r: &ReadOutcome, server: &str, samples: &Samples) {
+    sh.requests.fetch_add(1, Ordering::Relaxed);
+    *sh.kinds.lock().unwrap().entry(c.name.to_string()).or_insert(0) += 1;
+    let case = json!({"kind":"live_request","seam":"request_id","server": server, "case": c.name, "request": String::from_utf8_lossy(&c.req)});
+    let ReadOutcome::Resp(resp) = r else {
+        ctx.report(Violation { sig: json!({"kind":"no_response","case": c.name}), case, expected: json!({"status": c.status}), observed: json!(format!("{r:?}")) });
+        return;
+    };
+    let mut why: Vec<String> = vec![];
+    if resp.status != c.status {
+        why.push("status".into());
+    }
+    let rids = resp.header("x-request-id");
+    let rid = if rids.len() == 1 { Some(String::from_utf8_lossy(rids[0]).to_string()) } else { None };
+    match &rid {
+        None => why.push(format!("{} x-request-id headers", rids.len())),
+        Some(id) => {
+            if id.is_empty() {
+                why.push("empty request id".into());
+            }
+            if !sh.ids.lock().unwrap().insert(id.clone()) {
+                why.push("request id not unique".into());
+            }
+        }
+    }
+    let body = resp.json();
+    if c.framework_body {
+        match &body {
+            None => why.push("error body is not JSON".into()),
+            Some(b) => {
+                if b["request_id"].as_str().map(|s| s.to_string()) != rid {
+                    why.push("body.request_id != x-request-id".into());
+                }
+                if !b["message"].is_string() {
+                    why.push("body.message missing".into());
+                }
+            }
+        }
+    }
+    match c.handler_id {
+        HandlerId::None => {}
+        HandlerId::Field(k) => {
+            if body.as_ref().and_then(|b| b[k].as_str().map(|s| s.to_string())) != rid {
+                why.push("id given to the handler != x-request-id".into());
+            }
+        }
+        HandlerId::MessageRid => {
+            let m = body.as_ref().and_then(|b| b["message"].as_str().map(|s| s.to_string())).unwrap_or_default();
+            if Some(m.trim_start_matches("rid=").to_string()) != rid {
+                why.push("id given to the handler != x-request-id".into());
+            }
+        }
+    }
+    let mark = MARK.as_bytes();
+    if resp.body.windows(mark.len()).any(|w| w == mark) || resp.headers.iter().any(|(_, v)| v.windows(mark.len()).any(|w| w == mark)) || resp.reason.contains(MARK) {
+        why.push("internal message leaked".into());
+    }
+    if !why.is_empty() {
+        ctx.report(Violation { sig: json!({"kind":"live_error_contract","case": c.name, "why": why}), case, expected: json!({"status": c.status, "one unique x-request-id": true}), observed: resp.to_json() });
+    }
+    samples.offer(|| json!({"live_case": c.name, "response": resp.to_json()}));
+}
+
+pub fn run(ctx: &Ctx, samples: &Samples) -> Value {
+    let total: u64 = ctx.tier.pick(12_000, 600_000);
+    let srv = LiveServer::start(api(), (), ServerOpts { rt: RtKind::MultiThread(4), ..Default::default() }).unwrap_or_else(|e| machinery_failure(&e));
+    // a versioned server for version-policy failures
+    let vsrv = LiveServer::start(api(), (), ServerOpts { version_policy: Some(versioned("2.0.0")), ..Default::default() }).unwrap_or_else(|e| machinery_failure(&e));
+    let sh = Shared { ids: Mutex::new(HashSet::new()), requests: AtomicU64::new(0), kinds: Mutex::new(Default::default()) };
+    let nconn = 8usize;
+    let per_case_rounds = total / (nconn as u64 * 16);
+    par_for(nconn, nconn, 0, |t| {
+        let mut ka = KeepAlive::new(srv.addr);
+        let mut kv = KeepAlive::new(vsrv.addr);
+        for round in 0..per_case_rounds {
+            let i = round * nconn as u64 + t as u64;
+            for c in cases(i) {
+                let r = ka.roundtrip(&c.req, false, T);
+                check_response(ctx, &sh, &c, &r, "unversioned", samples);
+            }
+            // version policy failures and successes
+            let vc = [
+                Case { name: "version_header_missing", req: get("/ok", ""), status: 400, framework_body: true, handler_id: HandlerId::None },
+                Case { name: "version_header_unparsable", req: get("/ok", &format!("{VERSION_HEADER}: nope\r\n")), status: 400, framework_body: true, handler_id: HandlerId::None },
+                Case { name: "version_too_new", req: get("/ok", &format!("{VERSION_HEADER}: 3.0.0\r\n")), status: 400, framework_body: true, handler_id: HandlerId::None },
+                Case { name: "versioned_success", req: get("/ok", &format!("{VERSION_HEADER}: 1.0.0\r\n")), status: 200, framework_body: false, handler_id: HandlerId::Field("handler_request_id") },
+            ];
+            for c in &vc[(i % 2) as usize * 2..(i % 2) as usize * 2 + 2] {
+                let r = kv.roundtrip(&c.req, false, T);
+                check_response(ctx, &sh, c, &r, "versioned", samples);
+            }
+        }
+    });
+    let n = sh.requests.load(Ordering::Relaxed);
+    let ids = sh.ids.lock().unwrap().len() as u64;
+    json!({"requests": n, "distinct_request_ids": ids, "connections": nconn, "per_kind": *sh.kinds.lock().unwrap(),
+           "script": "16 response kinds cycled over 8 keep-alive connections and two servers (unversioned, header-versioned); status codes 400..=599 cycled; client-supplied x-request-id headers (absent / repeated value / all-zero uuid / two lines) cycled"})
+}
+
+pub fn replay(ctx: &Ctx, _case: &Value) {
+    let s = Samples::new(0);
+    let _ = run(ctx, &s);
+}
